@@ -99,9 +99,16 @@ class _Cfg:
     work = None
     deadline = None      # CPU-time limit (time.process_time(): not affected by machine load) for the decision in progress; polled every ~200k term operations
     ticks = 0
+    budget = None        # CPU-time limit (absolute time.process_time()) for the whole check; polled every ~2M term operations
+    bticks = 0
 
 
 CFG = _Cfg()
+
+
+class BudgetExceeded(Exception):
+    """The CPU-time budget of the whole check is used up (an unforeseen program made the value numbers explode outside any
+    single bounded decision).  The check stops with what it has decided so far and ANALYSIS-INCOMPLETE."""
 
 
 def _poll_deadline():
@@ -109,6 +116,14 @@ def _poll_deadline():
     CFG.ticks = 0
     if time.process_time() > CFG.deadline:
         raise WorkExceeded()
+
+
+def _poll_budget():
+    import time
+    CFG.bticks = 0
+    if CFG.budget is not None and time.process_time() > CFG.budget:
+        CFG.budget = None          # raise once; the handler writes the report
+        raise BudgetExceeded()
 
 _ONE = 1
 _ZERO = 0
@@ -268,6 +283,9 @@ class Poly:
             CFG.ticks += len(s.t) * len(o.t)
             if CFG.ticks > 200000:
                 _poll_deadline()
+        CFG.bticks += len(s.t) * len(o.t) + 1
+        if CFG.bticks > 2000000:
+            _poll_budget()
         if len(s.t) * len(o.t) > CFG.maxterms * 8:
             CFG.overflow_atoms += 1
             return opaque("bigmul", s, o)
